@@ -118,7 +118,10 @@ def generate(seed, tier, idx=0):
                 closed = False
             elif r < 0.16:
                 ops.append(["query"])
-            elif r < 0.22 and not closed:
+            elif r < 0.19 and not closed:
+                # a closing call that must be refused (and leave the tally open)
+                ops.append(["badend", rng.choice(["regress", "nan", "str", "none"])])
+            elif r < 0.25 and not closed:
                 t = t + (rng.choice([0, 0.5, 1, 4]) if not fine else rng.choice([0, 1e-6, 1e-7, 1.0]))
                 ops.append(["end", t])
                 closed = True
@@ -298,6 +301,27 @@ def run(case):
             f = check(i)
             if f:
                 return f, info
+        elif name == "badend":
+            if closed_at is not None or last_t is None:
+                continue
+            arg = {"regress": last_t - 0.5, "nan": NANF, "str": "x", "none": None}[op[1]]
+            before = text(read(st))
+            try:
+                st.end_observations(arg)
+                return ("invalid-accepted", "op #%d end_observations(%r) was accepted "
+                        "(last timestamp %r)" % (i, arg, last_t)), info
+            except (TypeError, ValueError):
+                pass
+            info["rejected"] += 1
+            after = text(read(st))
+            if before != after:
+                diff = {k: (before[k], after[k]) for k in before if before[k] != after[k]}
+                return ("rejected-input-changed-state", "op #%d rejected end_observations(%r) "
+                        "changed %s" % (i, arg, diff)), info
+            if not st.isactive():
+                return ("rejected-input-changed-state", "op #%d rejected end_observations(%r) "
+                        "closed the tally (isactive() is False): later observations are "
+                        "ignored" % (i, arg)), info
         elif name == "query":
             f = check(i)
             if f:
